@@ -82,10 +82,16 @@ def run(ctx):
                 corr.append((l, got, m))
             elif len(set(got.split(","))) != len(l):
                 bad.append(("rename", "c12.rename " + ",".join(n.encode().hex() for n in l), f"sibling names not distinct after RenameDuplicateShapes: {l} -> {got}"))
+        # a disagreement on an input where the library's result still has distinct names is a broken correspondence without a
+        # failing input for the property; one where names collide is the failing input
+        corr.sort(key=lambda c: len(set(c[1].split(","))) == len(c[0]))
         for j, (l, got, m) in enumerate(corr[:2]):
-            res.violation(f"correspondence-{j}", dict(what=f"RenameDuplicateShapes on {l}: library gives [{got}], model gives [{m}]",
+            distinct = len(set(got.split(","))) == len(l)
+            res.violation(f"correspondence-{j}", dict(what=f"RenameDuplicateShapes on {l}: library gives [{got}], model gives [{m}]"
+                                                            + ("" if distinct else " — sibling names collide"),
                                                        line="c12.rename " + ",".join(n.encode().hex() for n in l),
-                                                       broken="correspondence Graph/Rename.lean renameExact vs NifFile::RenameDuplicateShapes"))
+                                                       broken="correspondence Graph/Rename.lean renameExact vs NifFile::RenameDuplicateShapes"),
+                          no_input=distinct)
     ctx.allbad = bad
     if unused:
         k = next(k for k in ctx.known if k["fingerprint"].startswith("weights of vertices no triangle uses"))
